@@ -344,3 +344,28 @@ def b_prec(rng, tier):
         except Exception as ex:
             ok, det = False, repr(ex)
         yield (("orbital", round(inc, 4), round(om, 4), round(w, 4), round(c1, 4), round(c2, 4)), ok, det)
+    # the same for orbits in or next to the ecliptic of the starting epoch (node undetermined or ill-conditioned): compared as
+    # orientations (orbit normal and direction of perihelion), forwards and backwards in time
+    def orient(i, node, arg):
+        i, node, arg = (math.radians(v) for v in (i, node, arg))
+        n = (math.sin(i) * math.sin(node), -math.sin(i) * math.cos(node), math.cos(i))
+        pdir = (math.cos(node) * math.cos(arg) - math.sin(node) * math.sin(arg) * math.cos(i),
+                math.sin(node) * math.cos(arg) + math.cos(node) * math.sin(arg) * math.cos(i),
+                math.sin(arg) * math.sin(i))
+        return n + pdir
+    for i in range(400 if tier == "thorough" else 40):
+        c1, c2 = rng.uniform(-5, 5), rng.uniform(-5, 5)
+        e1, e2 = Epoch(J + 36525 * c1), Epoch(J + 36525 * c2)
+        inc = (0.0, 0.0, 1e-9, 1e-5, rng.uniform(0, 0.5))[i % 5]
+        om, w = rng.uniform(0, 360), rng.uniform(0, 360)
+        try:
+            i2, w2, o2 = C.orbital_equinox2equinox(e1, e2, Angle(inc), Angle(w), Angle(om))
+            i3, w3, o3 = C.orbital_equinox2equinox(e2, e1, i2, w2, o2)
+            a, b = orient(inc, om, w), orient(i3(), o3(), w3())
+            dev = max(abs(p_ - q_) for p_, q_ in zip(a, b))
+            ok, det = dev < 2e-6, ("there and back: orientation differs by", dev, (i2(), o2(), w2()), (i3(), o3(), w3()))
+            if ok and not (0.0 <= i2() <= 180.0):
+                ok, det = False, ("inclination outside [0, 180]", i2())
+        except Exception as ex:
+            ok, det = False, repr(ex)
+        yield (("orbital-in-ecliptic", inc, round(om, 4), round(w, 4), round(c1, 4), round(c2, 4)), ok, det)
